@@ -193,7 +193,11 @@ class FunctionDecl:
         if self.varargs:
             namedecls.append("*" + argnames.pop(0))
 
-        for name in argnames:
+        posonly = len(argnames) - getattr(self, "posonlycount", 0)
+        for idx, name in enumerate(argnames):
+            if idx == posonly and not as_call:
+                # the names before this point are positional-only
+                namedecls.append("/")
             if as_call or not defaults:
                 namedecls.append(name)
             else:
